@@ -11,6 +11,7 @@ import (
 	"strings"
 	"sync"
 	"sync/atomic"
+	"time"
 
 	"go4.org/jsonconfig"
 	"perkeep.org/pkg/blobserver"
@@ -32,6 +33,14 @@ type backendDef struct {
 	Spec  *sto.Spec // for Kind "sto": built by sto.Build with an inject.Plan
 	Gate  int       // capacity of the package-level stat gate (0 = none)
 	Comp  bool
+	// KV selects what is behind the fault-injecting key/value wrapper of the single backends:
+	// "" = sorted memory; "sqlite" = a real sqlite file (sorted/sqlkv: every access goes through
+	// a one-slot gate, a batch owns the gate and a transaction from BeginBatch to CommitBatch).
+	KV string
+	// Slices > 1: the sites are run by that many parallel chains of child processes.
+	Slices int
+	// LargeFile: the history of a composition contains a file big enough to be packed.
+	LargeFile bool
 }
 
 type recovery struct {
@@ -143,7 +152,25 @@ func build(def *backendDef, dir string) (*instance, error) {
 	}
 	p := newFplan()
 	in.plan = p
+	var kvErr error
 	mem := func(name string) blobserver.Storage { return wrapStore(name, &memory.Storage{}, p) }
+	// wrapKV over a fresh key/value store of the kind the definition asks for
+	nkv := 0
+	mkKV := func(name string) *fkv {
+		if def.KV != "sqlite" {
+			return wrapKV(name, sorted.NewMemoryKeyValue(), p)
+		}
+		nkv++
+		kv, err := sorted.NewKeyValue(jsonconfig.Obj{"type": "sqlite", "file": filepath.Join(dir, fmt.Sprintf("%s-%d.sqlite", name, nkv))})
+		if err != nil {
+			kvErr = fmt.Errorf("sqlite key/value store for %s: %w", name, err)
+			return wrapKV(name, sorted.NewMemoryKeyValue(), p)
+		}
+		in.closers = append(in.closers, func() { closeBounded(kv) })
+		w := wrapKV(name, kv, p)
+		w.deferBatches = true
+		return w
+	}
 	ld := sto.NewLoader()
 	var err error
 	switch def.Kind {
@@ -152,7 +179,7 @@ func build(def *backendDef, dir string) (*instance, error) {
 		if err := os.MkdirAll(d, 0o700); err != nil {
 			return nil, err
 		}
-		kvc, unreg := regKV("dpidx", wrapKV("diskpacked-index", sorted.NewMemoryKeyValue(), p))
+		kvc, unreg := regKV("dpidx", mkKV("diskpacked-index"))
 		in.closers = append(in.closers, unreg)
 		conf := jsonconfig.Obj{"path": d, "metaIndex": map[string]any(kvc), "maxFileSize": float64(1200)}
 		cur, err := create("diskpacked", ld, conf)
@@ -173,7 +200,7 @@ func build(def *backendDef, dir string) (*instance, error) {
 		}
 		in.recov = append(in.recov, recovery{Name: "reindex", Run: func() (blobserver.Storage, error) {
 			closeSto(cur)
-			kvc2, unreg2 := regKV("dpidx2", wrapKV("diskpacked-index2", sorted.NewMemoryKeyValue(), p))
+			kvc2, unreg2 := regKV("dpidx2", mkKV("diskpacked-index2"))
 			in.closers = append(in.closers, unreg2)
 			if err := diskpacked.Reindex(context.Background(), d, true, cloneConf(kvc2)); err != nil {
 				return nil, fmt.Errorf("diskpacked.Reindex: %w", err)
@@ -190,7 +217,7 @@ func build(def *backendDef, dir string) (*instance, error) {
 	case "blobpacked":
 		ld.Set("/small/", mem("bp-small"))
 		ld.Set("/large/", mem("bp-large"))
-		kvc, unreg := regKV("bpmeta", wrapKV("blobpacked-meta", sorted.NewMemoryKeyValue(), p))
+		kvc, unreg := regKV("bpmeta", mkKV("blobpacked-meta"))
 		in.closers = append(in.closers, unreg)
 		conf := jsonconfig.Obj{"smallBlobs": "/small/", "largeBlobs": "/large/", "metaIndex": map[string]any(kvc), "keepGoing": true}
 		in.S, err = create("blobpacked", ld, conf)
@@ -235,7 +262,7 @@ func build(def *backendDef, dir string) (*instance, error) {
 		if err != nil {
 			return nil, err
 		}
-		kvc, unreg := regKV("encidx", wrapKV("encrypt-index", sorted.NewMemoryKeyValue(), p))
+		kvc, unreg := regKV("encidx", mkKV("encrypt-index"))
 		in.closers = append(in.closers, unreg)
 		conf := jsonconfig.Obj{
 			"I_AGREE": "that encryption support hasn't been peer-reviewed, isn't finished, and its format might change.",
@@ -248,7 +275,7 @@ func build(def *backendDef, dir string) (*instance, error) {
 		in.caps = sto.Caps{Receive: true, Remove: false}
 		in.reopen = func() (blobserver.Storage, error) { return create("encrypt", ld, conf) }
 		in.recov = append(in.recov, recovery{Name: "rescan", Run: func() (blobserver.Storage, error) {
-			kvc2, unreg2 := regKV("encidx2", wrapKV("encrypt-index2", sorted.NewMemoryKeyValue(), p))
+			kvc2, unreg2 := regKV("encidx2", mkKV("encrypt-index2"))
 			in.closers = append(in.closers, unreg2)
 			conf2 := cloneConf(conf)
 			conf2["metaIndex"] = map[string]any(kvc2)
@@ -308,7 +335,7 @@ func build(def *backendDef, dir string) (*instance, error) {
 		lower := mem("lower")
 		ld.Set("/lower/", lower)
 		ld.Set("/upper/", mem("upper"))
-		kvc, unreg := regKV("ovdel", wrapKV("overlay-deleted", sorted.NewMemoryKeyValue(), p))
+		kvc, unreg := regKV("ovdel", mkKV("overlay-deleted"))
 		in.closers = append(in.closers, unreg)
 		in.S, err = create("overlay", ld, jsonconfig.Obj{"lower": "/lower/", "upper": "/upper/", "deleted": map[string]any(kvc)})
 		in.caps = sto.Caps{Receive: true, Remove: true}
@@ -316,7 +343,7 @@ func build(def *backendDef, dir string) (*instance, error) {
 
 	case "namespace":
 		ld.Set("/master/", mem("master"))
-		kvc, unreg := regKV("nsinv", wrapKV("ns-inventory", sorted.NewMemoryKeyValue(), p))
+		kvc, unreg := regKV("nsinv", mkKV("ns-inventory"))
 		in.closers = append(in.closers, unreg)
 		in.S, err = create("namespace", ld, jsonconfig.Obj{"storage": "/master/", "inventory": map[string]any(kvc)})
 		if err != nil {
@@ -367,11 +394,25 @@ func build(def *backendDef, dir string) (*instance, error) {
 	default:
 		return nil, fmt.Errorf("unknown backend kind %q", def.Kind)
 	}
+	if err == nil {
+		err = kvErr
+	}
 	if err != nil {
 		in.Close()
 		return nil, err
 	}
 	return in, nil
+}
+
+// closeBounded closes a key/value store without waiting for ever: after a hang inside the
+// store under test a transaction may still be open.
+func closeBounded(kv sorted.KeyValue) {
+	done := make(chan struct{})
+	go func() { kv.Close(); close(done) }()
+	select {
+	case <-done:
+	case <-time.After(2 * time.Second):
+	}
 }
 
 func sp(kind string, p map[string]any, kids ...*sto.Spec) *sto.Spec {
@@ -458,6 +499,16 @@ func backendDefs(rng *rand.Rand, thorough bool) []*backendDef {
 				defs = append(defs, &backendDef{Name: fmt.Sprintf("%s~%d", d.Name, h), Label: d.Label, Kind: d.Kind})
 			}
 		}
+	}
+	// the same backends over a real SQL key/value store (sqlite): its batches own a transaction
+	// and the store's one-slot access gate until they are committed, so an error path that
+	// forgets a batch, or that reads the index while a batch is open, blocks every later access
+	sql := []string{"blobpacked", "diskpacked"}
+	if thorough {
+		sql = append(sql, "encrypt", "overlay", "namespace")
+	}
+	for _, k := range sql {
+		defs = append(defs, &backendDef{Name: k + "-sql", Label: k, Kind: k, KV: "sqlite", Slices: 3})
 	}
 	seen := map[string]bool{}
 	nSingles := len(defs)
